@@ -819,8 +819,12 @@ func propC06(r *Run, w *World) {
 			ks = append(ks, k)
 		}
 		sort.Strings(ks)
+		r.Check(idx != "", "header arrays copied element by element", fn.Pos(), "one index for Fields/FieldFlags/Values", "the three header arrays are not filled by indexed stores Fields[i]/FieldFlags[i]/Values[i] = fields[i]/fieldFlags[i]/values[i]: the field triples cannot be shown to stay aligned (and bounded by the array length)")
 		for _, k := range ks {
-			r.Check(got[k] == want[k] && idx != "", "header."+strings.Split(k, "[")[0], fn.Pos(), want[k], fmt.Sprintf("header field %s is filled from %q; want %q", k, got[k], want[k]))
+			if idx == "" && strings.Contains(k, "[") {
+				continue
+			}
+			r.Check(got[k] == want[k], "header."+strings.Split(k, "[")[0], fn.Pos(), want[k], fmt.Sprintf("header field %s is filled from %q; want %q", k, got[k], want[k]))
 		}
 		okBuf := strings.HasPrefix(got["Buf"], "append(new(rule.auditRuleData)") && strings.Contains(got["Buf"], ".Buf, []byte("+local+".strings[")
 		r.Check(okBuf, "Buf = strings concatenated in order", fn.Pos(), "", "Buf is not built by appending r.strings in order: "+got["Buf"])
@@ -890,7 +894,7 @@ func propC06(r *Run, w *World) {
 	}
 
 	// R6 mask
-	r.Rule("C06.R6", "mask: bit n%32 of word n/32 is or-ed into Mask for each requested syscall; the all-syscalls pattern is 0xFFFFFFFF in every word and 0x0000FFFF in the last", 2)
+	r.Rule("C06.R6", "mask: bit n%32 of word n/32 is or-ed into Mask for each requested syscall; the all-syscalls pattern is 0xFFFFFFFF in every word and 0x0000FFFF in the last", 4)
 	{
 		fn := x.toARD
 		var maskStores []*ssa.Store
@@ -901,6 +905,7 @@ func propC06(r *Run, w *World) {
 		}
 		var orSt *ssa.Store
 		all, last := false, false
+		r.Check(len(maskStores) == 3, "mask writers", fn.Pos(), "three stores: all-words fill, last word, syscall bit", fmt.Sprintf("the syscall mask is written by %d stores; every additional store changes which syscalls the rule selects", len(maskStores)))
 		for _, st := range maskStores {
 			t := Term(st.Val)
 			switch {
@@ -956,6 +961,9 @@ func propC06(r *Run, w *World) {
 					okBit = okBit && strings.Contains(Term(orSt.Val), AddrTerm(orSt.Addr))
 				}
 			}
+		}
+		if orSt != nil {
+			r.Check(guardEndsWith(orSt.Block(), ".allSyscalls") == false && HoldsAtSuffix(orSt.Block(), "!", ".allSyscalls"), "syscall bits only without allSyscalls", orSt.Pos(), "", "syscall bits are or-ed in although all syscalls were requested")
 		}
 		r.Check(okBit, "syscall bit", fn.Pos(), "Mask[n/32] |= 1 << (n%32)", "the syscall bit is not bit n%32 of word n/32 or-ed into the mask: "+detail)
 	}
@@ -1061,6 +1069,16 @@ func propC06(r *Run, w *World) {
 		r.Check(okOrder, "file watch emits path|dir, perm, key", fn.Pos(), "", "no success path with the expected filter order")
 		undo()
 	}
+}
+
+// HoldsAtSuffix: some guard literal at b starts with prefix and ends with suffix.
+func HoldsAtSuffix(b *ssa.BasicBlock, prefix, suffix string) bool {
+	for _, g := range GuardLits(b) {
+		if strings.HasPrefix(g, prefix) && strings.HasSuffix(g, suffix) {
+			return true
+		}
+	}
+	return false
 }
 
 func guardEndsWith(b *ssa.BasicBlock, suffix string) bool {
